@@ -144,6 +144,11 @@ func (in *inst) Key() string {
 
 var menu []probe
 
+var (
+	maxlenMissing bool
+	maxlenSearch  time.Duration
+)
+
 func buildMenu(thorough bool) {
 	type fl struct {
 		secret int
@@ -192,6 +197,15 @@ func buildMenu(thorough bool) {
 			add(fmt.Sprintf("bitflip@%d", p), m, "bitflip")
 		}
 	}
+	// a genuine obfs4 flight of the maximum handshake length (the client picked the maximum padding: once in about
+	// 8000 handshakes); recognition must not depend on the padding the client happened to draw
+	t0 := time.Now()
+	if d := vfix.Obfs4FlightOfLen(vfix.Secret(1), 8192, 120000); d != nil {
+		menu = append(menu, probe{"s1/Obfs4/pfx0:genuine-maxlen", d, 1, pb.TransportType_Obfs4, 0, ""})
+	} else {
+		maxlenMissing = true
+	}
+	maxlenSearch = time.Since(t0)
 	for i, n := range []int{32, 64, 80, 85, 96, 4096, 8192, 8193} {
 		menu = append(menu, probe{fmt.Sprintf("random%d", n), noise(n, i), 0, 0, 0, "random"})
 	}
@@ -321,7 +335,7 @@ func main() {
 	res := vbfs.Run(vbfs.Config{Depth: depth, Deadline: a.Deadline(), FirstOps: first}, sys)
 	o := &vh.Out{Name: fmt.Sprintf("bfs:shard%d/%d", a.ShardI, a.ShardN), Evaluations: res.States * int64(len(menu)*len(phantoms)), Nontrivial: res.States, States: res.States, Transitions: res.Transitions, Traces: res.Transitions,
 		Exhaustive: res.Exhaustive, Cap: res.Cap, WallS: res.WallS, ViolCounts: res.ViolCounts,
-		Extra: map[string]any{"depth_completed": res.DepthCompleted, "alphabet": ops, "probe_menu": len(menu), "phantoms": len(phantoms)}}
+		Extra: map[string]any{"depth_completed": res.DepthCompleted, "alphabet": ops, "probe_menu": len(menu), "phantoms": len(phantoms), "obfs4_maxlen_flight_found": !maxlenMissing, "obfs4_maxlen_search_s": maxlenSearch.Seconds()}}
 	for _, v := range res.Violations {
 		o.Violations = append(o.Violations, &vh.Violation{Key: v.Key, What: v.What, Replay: map[string]any{"history": v.History}})
 	}
